@@ -5,6 +5,7 @@ package main
 //   memmongo -> OperationDoc -> model.Operation -> operation,   and the echo service.
 
 import (
+	"encoding/json"
 	"context"
 	"fmt"
 
@@ -171,6 +172,14 @@ func runEncProfile(seed uint64, cases int, out func(cmd, obs J), statsPath strin
 				obs["recvErr"] = errCode(err)
 				obs["viewA"] = viewJ(a.dt)
 				obs["viewB"] = viewJ(b.dt)
+				// the JSON value of the input, as encoding/json sees it
+				if wb, werr := json.Marshal(sh.v); werr == nil {
+					var want interface{}
+					if json.Unmarshal(wb, &want) == nil {
+						obs["want"] = want
+						obs["hasWant"] = true
+					}
+				}
 			})
 			stats["shape"]++
 			out(cmd, obs)
